@@ -726,6 +726,11 @@ class CtxAwareTransformer(NodeTransformer):
         self.generic_visit(node)
         return node
 
+    def visit_TypeAlias(self, node):
+        """Handle visiting a ``type X = ...`` statement (binds X)."""
+        self.ctxadd(node.name.id)
+        return node
+
     def visit_Import(self, node):
         """Handle visiting a import statement."""
         for name in node.names:
